@@ -262,6 +262,9 @@ func RunCheck(root, property, tier string, seed int64, jobsN int, only string, v
 			if js.Samples == 0 {
 				js.Samples = 4
 			}
+			if js.TimeoutS == 0 {
+				js.TimeoutS = 900 // never run blind: an unfinished job is reported as inconclusive
+			}
 			results[i] = RunJob(P, js, kfOpen)
 			if verbose {
 				r := results[i]
